@@ -120,6 +120,8 @@ class Run(object):
                 r.settle()
             if r.sock is not None:
                 r.sock.fail_send = False
+            if kind == 'stop' and i == ti:
+                return self.stop_test()
             if kind == 'silence' and i == ti:
                 if r.p.state not in (2, 13):
                     return 'n/a'           # ARTIM is not armed here: silence is outside the property
@@ -132,6 +134,55 @@ class Run(object):
             r.advance(11)
             r.settle()
         return self.verdict()
+
+    def stop_test(self):
+        """the stop protocol of the real provider at this quiescent point: run() in a real thread; stop() must say
+        whether the provider is idle (and then end the loop); kill() must return, whatever the state"""
+        import threading
+        from pynetdicom2 import dulprovider
+        p = self.r.p
+        if p.crashed is not None or self.r.tr.blocked:
+            return 'n/a'
+        state = p.state
+        p._budget = 10 ** 15                  # the loop condition is now governed by the termination flag alone
+        p._is_killed.clear()
+        box = {}
+
+        def body():
+            try:
+                p.run()
+            except BaseException as e:  # pylint: disable=broad-except
+                box['exc'] = e
+        th = threading.Thread(target=body, daemon=True)
+        th.start()
+        said = dulprovider.DULServiceProvider.stop(p)
+        if said:
+            th.join(3)
+            if th.is_alive():
+                p._killed = True
+                return 'stop() reported success in Sta%d but the loop kept running' % state
+            if state != 1 or (self.r.sock is not None and not self.r.sock.closed):
+                return ('stop() ended the loop in Sta%d with the transport %s: the provider did not return to idle with the '
+                        'transport closed' % (state, 'open' if self.r.sock is not None and not self.r.sock.closed else 'closed'))
+        done = threading.Event()
+
+        def killer():
+            dulprovider.DULServiceProvider.kill(p)
+            done.set()
+        threading.Thread(target=killer, daemon=True).start()
+        if not done.wait(3):
+            p._killed = True
+            p._is_killed.set()
+            return 'kill() did not return within 3 s in Sta%d: a request to stop did not complete' % state
+        th.join(3)
+        if th.is_alive():
+            p._killed = True
+            return 'kill() returned in Sta%d but the loop is still running' % state
+        if 'exc' in box and not isinstance(box['exc'], s2.WouldBlockForever):
+            return 'the loop died while being stopped in Sta%d: %r' % (state, box['exc'])
+        if 'exc' in box:
+            return 'a pass blocked while a stop was pending in Sta%d: %s' % (state, box['exc'])
+        return None
 
     def verdict(self):
         r = self.r
@@ -183,6 +234,7 @@ def faults_for(conv, tier):
                     out.append(('eof-mid-send', i, k))
         out.append(('silence', i, 0))
         out.append(('fail-send', i, 0))
+        out.append(('stop', i, 0))
     out.append(('none', -1, 0))
     return out
 
@@ -198,7 +250,8 @@ def run(chk):
                 'side, reject, garbage, pipelining; both roles) run on the real provider loop (S2) with one fault each: the '
                 'peer disconnecting after every byte prefix of every peer turn and before every local step (orderly close; and a '
                 'connection reset, where recv raises, at five offsets of every turn), the peer going '
-                'silent for ever after every turn (clock advanced past ARTIM), a transport write failing during every turn; '
+                'silent for ever after every turn (clock advanced past ARTIM), a transport write failing during every turn, a stop '
+                'requested at every quiescent point (run() in a real thread: a stop() that succeeds ends the loop and only in the idle, closed state; kill() returns); '
                 'oracle: no pass blocks, the loop does not die, final state idle, socket closed and dropped, ARTIM stopped, '
                 'the user told when an association had been indicated; non-trivial = faults that strike mid-conversation')
     chk.trusted += ['harness/s2.py: a recv() on a blocking socket with nothing to read is reported as blocking for ever',
